@@ -108,7 +108,7 @@ func runC18(ctx *core.Ctx) {
 	capBases := ctx.N(110, 1200)
 
 	// --- unknown properties reject everything ---------------------------------
-	unknown := []string{"behavior", "-moz-binding", "Color", "color ", " color", "colour", "COLOR", "background-image ", "x", "", "binding", "-ms-behavior", "src", "content", "unicode-range", "font-face", "expression", "zoom", "-webkit-mask-image", "mask", "clip-path", "will-change"}
+	unknown := []string{"--accent", "--x", "--", "--color", "--COLOR", "---", "-", "behavior", "-moz-binding", "Color", "color ", " color", "colour", "COLOR", "background-image ", "x", "", "binding", "-ms-behavior", "src", "content", "unicode-range", "font-face", "expression", "zoom", "-webkit-mask-image", "mask", "clip-path", "will-change"}
 	// real CSS properties (newer modules) that the documented table does not list
 	unknown = append(unknown, strings.Fields(`gap row-gap inset inset-block inset-inline aspect-ratio accent-color place-items place-content place-self scroll-snap-type scroll-snap-align scroll-margin scroll-padding overscroll-behavior
 		text-underline-offset text-decoration-thickness text-emphasis font-display font-feature-settings font-variation-settings font-optical-sizing mask-image mask-size contain content-visibility appearance all block-size inline-size
